@@ -5,6 +5,6 @@ cd /verif
 git -C /repo apply "$d/patch.diff" || { echo "patch does not apply"; exit 2; }
 ./check "$prop" "$tier" | grep -v '^KNOWN-FINDING' | tail -6
 rc=${PIPESTATUS[0]}
-git -C /repo checkout -- .
+git -C /repo apply -R "$d/patch.diff" || git -C /repo checkout -- .
 git -C /repo status --short | grep -v '^??' | head -3
 exit $rc
